@@ -53,6 +53,15 @@ register("C17", "proof",
          TB + "sizes are counted in characters (ASCII programs); lines contain no exotic str.splitlines separators (hypothesis NoBreaks).",
          "Lean 4 proof (list induction) + model/code correspondence on real compiler results", "DESIGN.md §4 C17")
 
+register("C08", "proof",
+         "Lean theorems over PV.Tokens (the transpiler's compute_hash / compute_string / _apply_output_mode / format_enum / format_int and the loader's token semantics denote): for every string, every integer and "
+         "every enum member the spelling produced in any output mode denotes the same number (hash_compact_denotes_verbose, str_compact_denotes_verbose under the byte-character hypothesis, "
+         "enum_*_compact_denotes_verbose, int_denotes via formatInt_roundtrip), and a number replaces a symbolic token only if it is its value (numeric_only_if_exact). Tie: exact-text correspondence of the model "
+         "with the real functions on generated names and on all members of all enums (exhaustive), enum tables regenerated. Oracle: the loader model parses the real verbose and compact outputs of shipped, "
+         "generated and string-heavy programs (other options equal, random) and compares the instruction sequences operand by operand. STR with characters above U+00FF is known finding F-C08-a.",
+         TB + "IC10 token semantics (HASH = signed CRC-32 of UTF-8 bytes, STR = big-endian byte packing, bare enum names resolved by operand position) is a hand-written specification; names contain no double quote.",
+         "Lean 4 proof (case analysis + numeral round-trip induction) + model/code correspondence + loader-model comparison of real outputs", "DESIGN.md §4 C08")
+
 ALL = [f"C{i:02d}" for i in range(1, 19)]
 
 
